@@ -1,7 +1,11 @@
 """Per-property claim texts for MANIFEST.json (kept next to the obligations registry)."""
 
 ENGINES = [
-    dict(name="jsym", path="jsym/", serves_properties=["C01", "C02", "C03", "C04", "C05", "C06", "C07", "C09", "C12", "C13", "C14", "C15", "C16", "C17", "C18", "C20"],
+    dict(name="crosshair", path="harness/x_split.py", serves_properties=["C19"],
+         kind_free_text="CrossHair 0.0.110 (`crosshair check --report_all`) on contracts in harness/xsplit/contracts.py: symbolic Unicode strings"),
+    dict(name="z3-direct", path="harness/q_slurm.py", serves_properties=["C18"],
+         kind_free_text="direct z3 sequence/regex queries over unbounded strings generated from the live objects of /repo"),
+    dict(name="jsym", path="jsym/", serves_properties=["C01", "C02", "C03", "C04", "C05", "C06", "C07", "C09", "C12", "C13", "C14", "C15", "C16", "C17", "C18", "C19", "C20"],
          kind_free_text="own concolic executor on z3: proxy objects for ints/reals/bools, every branch decided by the solver, replay-based DFS to exhaustion, prefix-sharded over 16 processes; real JADE code runs natively"),
 ]
 
@@ -102,5 +106,12 @@ CLAIMS["C13"] = dict(
     note=_HN + " Outputs are produced without report generation (no events directory), the case the statement singles out; with-reports outputs are outside the bound of this check. The HPC job id column of preserved rows is not compared (the property lists name, return code, status and times).",
     technique="bounded symbolic execution of the real code with z3 (jsym): solver-chosen DAGs, outcomes, flags and schedules")
 
+CLAIMS["C19"] = dict(
+    text="K-launch/split (jsym): every command over the alphabet {a, space, tab, ', \", backslash, $, ;, =, -} up to 3 (5 thorough) characters after a leading word, all append_* combinations and three legal job names, through the real GenericCommandParameters -> GenericCommandExecution.generate_command -> AsyncCliCommand.run: argv at Popen == reference POSIX split of the configured command + documented extras, ValueError exactly for malformed commands, JADE_RUNTIME_OUTPUT/JADE_JOB_NAME set, environment inherited, own .o/.e files, no shell. "
+    "K-launch/rc: every exit code 0..255 as a z3 integer through the real is_complete/_complete/ResultsAggregator.append/process_results/list_results: the row carries the name, that exit code and the node's SLURM job id. K-launch/real: 72 launches with a real subprocess of a probe that dumps argv/env/cwd and exits with a chosen status. "
+    "X-split (CrossHair 0.0.110, symbolic str): for ALL Unicode strings s with len(s) <= 2 (3 thorough) shlex.split(s, posix=True) equals the reference splitter incl. which inputs raise; and for all s with len(s) <= 1 and each append_* combination the argv produced by the real generate_command + AsyncCliCommand.run on 'x'+s equals reference + extras ('Confirmed over all paths').",
+    note="The reference is POSIX word splitting and quote removal as Python's shlex defines its POSIX mode; $, back-quote and newline escapes of a real sh are outside the claim (JADE documents 'shell characters not allowed'). The configured command is the one stored by the job model (pydantic strips outer whitespace). Windows (posix=False branch) and job names containing ',' or whitespace are outside the claim. CrossHair could not exhaust len 2 through the JADE path in 600 s; that bound is therefore 1.",
+    technique="bounded symbolic execution with z3: jsym for character-by-character commands and exit codes, CrossHair for symbolic Unicode strings", engine="jsym+crosshair")
+
 _TODO = "check not built yet in this session (planned in DESIGN.md section 6); not claimed until it exists"
-NOT_APPLICABLE = {p: _TODO for p in ["C08", "C10", "C11", "C19"]}
+NOT_APPLICABLE = {p: _TODO for p in ["C08", "C10", "C11"]}
